@@ -195,6 +195,49 @@ def run_in(spec, res, d, h):
                             % (i, tf[i, 0].tolist() if i < tf.shape[0]
                                else None, d, t))
             break
+    if not problems and 'TSTEP' in w and not spec.get('disk') and \
+            not spec.get('notflag') and fs.get('via') != 'uamiv' and \
+            fs['seed'] % 2 == 0:
+        # the same file object is re-dated (all steps moved by ten days and
+        # an hour) and windowed again: the second window is referenced to
+        # the new times
+        try:
+            nd, ntm = gen_ioapi.jd_add(fs['sdate'], fs['stime'],
+                                       864000 + 3600)
+            if 'time' in f.variables:
+                raise LookupError('file carries a CF time coordinate')
+            # (consistent in-place edit of the flags and the start)
+            tfv = f.variables['TFLAG']
+            for i_ in range(fs['nt']):
+                di_, ti_ = gen_ioapi.jd_add(nd, ntm, i_ * dt)
+                tfv[i_, :, 0] = di_
+                tfv[i_, :, 1] = ti_
+            f.SDATE, f.STIME = nd, ntm
+            out2 = f.sliceDimensions(**kw)
+            res.hook('sliceDimensions.return')
+            res.facet('re-dated-second-window')
+            d0, t0 = gen_ioapi.jd_add(nd, ntm, a * dt)
+            if int(out2.SDATE) != d0 or int(out2.STIME) != t0:
+                problems.append('after re-dating the source to (%d, %d) the '
+                                'same window has SDATE/STIME (%s, %s), '
+                                'expected (%d, %d)' % (nd, ntm, out2.SDATE,
+                                                       out2.STIME, d0, t0))
+            tf2 = np.asarray(out2.variables['TFLAG'][...])
+            if tf2.shape[0] != b - a or int(tf2[0, 0, 0]) != d0 or \
+                    int(tf2[0, 0, 1]) != t0:
+                problems.append('after re-dating the source the same window '
+                                'has TFLAG[0] = %s, expected (%d, %d)'
+                                % (tf2[0, 0].tolist() if tf2.shape[0] else
+                                   None, d0, t0))
+            g2 = [as_utc_tuple(t)[:6] for t in out2.getTimes()]
+            e2 = [gen_ioapi.jd_tuple(*gen_ioapi.jd_add(nd, ntm, (a + i) * dt))
+                  for i in range(b - a)]
+            if g2 != e2:
+                problems.append('after re-dating the source the same window '
+                                'decodes to %s, expected %s' % (g2[:2],
+                                                                e2[:2]))
+        except Exception as e:
+            res.note('re-dated-window-raised:%s' % type(e).__name__)
     res.ev(dg, dropped, facets)
     if problems:
         res.viol('referencing-lost:' + '+'.join(sorted(kw)),
